@@ -59,6 +59,9 @@ enum BodyOp {
     /// `side.merge(loop stream)`: a stream from outside the loop is the LEFT input of a binary
     /// block inside the body (its elements are dropped again right after the state check)
     SideLeftMerge,
+    /// `side.join(loop stream)` with hash shipping: the loop elements cross hosts into a binary
+    /// block whose left input comes from outside the loop (one side element per key: 1:1 join)
+    SideLeftJoin,
 }
 
 #[derive(Clone, Debug, Serialize)]
@@ -149,6 +152,10 @@ fn build_body(
                 Some(sd) => sd.merge(s).boxed(),
                 None => s,
             },
+            BodyOp::SideLeftJoin => match side.take() {
+                Some(sd) => sd.join(s, |t: &TRec| t.r.k, |t: &TRec| t.r.k).unkey().map(|(_, (_, t))| t).boxed(),
+                None => s,
+            },
         };
         // after every operator: re-read the state and compare with the tag
         let st2 = st.clone();
@@ -181,7 +188,7 @@ fn ref_body(input: &[TRec], ops: &[BodyOp], st: &LState) -> Vec<TRec> {
     for op in ops {
         v = match *op {
             BodyOp::AddState => v.into_iter().map(|t| f_add_state(t, st)).collect(),
-            BodyOp::Shuffle | BodyOp::GroupBy | BodyOp::Work(_) | BodyOp::SideLeftMerge => v,
+            BodyOp::Shuffle | BodyOp::GroupBy | BodyOp::Work(_) | BodyOp::SideLeftMerge | BodyOp::SideLeftJoin => v,
             BodyOp::Nested { rounds, stop_m } => {
                 // sequential meaning of the inner loop: starts from the initial state every time
                 let mut ist = LState::default();
@@ -258,12 +265,13 @@ fn gen_loop_case(rng: &mut Rng, thorough: bool) -> LoopCase {
             6 => BodyOp::KeyedSum,
             7 | 8 => BodyOp::Work(rng.below(300) + 1),
             9 if !iterate && !body.iter().any(|b| matches!(b, BodyOp::Nested { .. })) => BodyOp::Nested { rounds: rng.usize(1, 4), stop_m: rng.range(2, 5) },
-            10 | 11 if !body.contains(&BodyOp::SideLeftMerge) => BodyOp::SideLeftMerge,
+            10 if !body.contains(&BodyOp::SideLeftMerge) && !body.contains(&BodyOp::SideLeftJoin) => BodyOp::SideLeftMerge,
+            11 if !body.contains(&BodyOp::SideLeftMerge) && !body.contains(&BodyOp::SideLeftJoin) => BodyOp::SideLeftJoin,
             _ => BodyOp::AddState,
         });
     }
     // the element after a side input is checked against the state: make sure a state read follows
-    if body.last() == Some(&BodyOp::SideLeftMerge) {
+    if matches!(body.last(), Some(BodyOp::SideLeftMerge | BodyOp::SideLeftJoin)) {
         body.push(BodyOp::AddState);
     }
     // iterate: keep the per-round volume far below the buffering of the feedback cycle
@@ -283,8 +291,10 @@ fn gen_loop_case(rng: &mut Rng, thorough: bool) -> LoopCase {
 
 fn loop_policy(rng: &mut Rng) -> Policy {
     let seed = rng.next_u64();
-    match rng.below(7) {
+    match rng.below(10) {
         0 | 1 => Policy::none(),
+        // one slow link: what a given block (often the loop leader) sends arrives late on one host
+        7 | 8 | 9 => Policy { name: "slow-link-to-one-host".into(), slow_recv_links: vec![(rng.below(6), rng.below(3), rng.below(20_000) + 2_000)], seed, ..Default::default() },
         // the leader / feedback blocks have small ids in these pipelines: slow one block's sends
         2 | 3 => Policy { name: "slow-block-sends".into(), slow_send_blocks: vec![(rng.below(7), rng.below(2000) + 100)], seed, ..Default::default() },
         4 => Policy { name: "slow-block-recvs".into(), slow_recv_blocks: vec![(rng.below(7), rng.below(1500) + 100)], seed, ..Default::default() },
@@ -350,8 +360,9 @@ pub fn run_c10(args: &Args, report: &mut Report) {
                 let mon3 = mon2.clone();
                 let (m, r) = (c2.stop_m, c2.stop_r);
                 // a small stream from outside the loop, for bodies with a (left) side input
-                let side = body.contains(&BodyOp::SideLeftMerge).then(|| {
-                    ctx.stream_iter((0..7u64).map(|i| TRec { r: Rec { id: 900_000 + i, k: (i % 3) as u32, v: C10_SIDE_V }, tag: 0 }))
+                let side = (body.contains(&BodyOp::SideLeftMerge) || body.contains(&BodyOp::SideLeftJoin)).then(|| {
+                    // one side element per key 0..=16 (the loop keys are below 17)
+                    ctx.stream_iter((0..17u64).map(|i| TRec { r: Rec { id: 900_000 + i, k: i as u32, v: C10_SIDE_V }, tag: 0 }))
                         .batch_mode(batch)
                         .shuffle()
                         .boxed()
